@@ -7,7 +7,7 @@ import clingo
 import clingo.ast as A
 from clingo.ast import ComparisonOperator as CO
 
-from native.build import build
+from native.build import LOC, build
 
 OPS = {n: getattr(CO, n) for n in ("Equal", "NotEqual", "LessThan", "LessEqual", "GreaterThan", "GreaterEqual")}
 PYOP = {
@@ -64,3 +64,122 @@ def _flip(model, extra):
     got = NAME_OF[rhs2lhs_comparison(OPS[op])]
     bad = [(a, b) for a in SAMPLE_INTS for b in SAMPLE_INTS if PYOP[op](a, b) != PYOP[got](b, a)]
     return {"confirmed": bool(bad), "call": f"rhs2lhs_comparison({op})", "got": got, "witness_pairs": bad[:3]}
+
+
+# ---------------------------------------------------------------------------------------------
+# C05 guards
+SAMPLE_SYMS = [clingo.Infimum, clingo.Number(-1), clingo.Number(0), clingo.Number(1), clingo.Function("a", []), clingo.String("s"), clingo.Supremum]
+
+
+def sym_cmp(op, a, b):
+    return PYOP[NAME_OF[op] if not isinstance(op, str) else op](a, b)
+
+
+def term_value(term, assignment):
+    if term.ast_type == A.ASTType.SymbolicTerm:
+        return term.symbol
+    return assignment[str(term)]
+
+
+def guards_hold(agg, v, assignment):
+    ok = True
+    if agg.left_guard is not None:
+        ok = ok and sym_cmp(A.ComparisonOperator(agg.left_guard.comparison), term_value(agg.left_guard.term, assignment), v)
+    if agg.right_guard is not None:
+        ok = ok and sym_cmp(A.ComparisonOperator(agg.right_guard.comparison), v, term_value(agg.right_guard.term, assignment))
+    return ok
+
+
+@mirror("guards")
+def _guards(model, extra):
+    import itertools
+
+    from ngo.normalize import remove_unecessary_bounds
+
+    agg = build(model["bodyagg"])
+    rule = A.Rule(A.Location(A.Position("<cex>", 1, 1), A.Position("<cex>", 1, 1)), A.Literal(LOC, A.Sign.NoSign, A.BooleanConstant(False)), [A.Literal(LOC, A.Sign.NoSign, agg)])
+    new_rule = remove_unecessary_bounds([rule])[0]
+    new = new_rule.body[0].atom
+    open_terms = sorted({str(g.term) for g in (agg.left_guard, agg.right_guard, new.left_guard, new.right_guard) if g is not None and g.term.ast_type != A.ASTType.SymbolicTerm})
+    for vals in itertools.product(SAMPLE_SYMS, repeat=len(open_terms)):
+        assignment = dict(zip(open_terms, vals))
+        for v in SAMPLE_SYMS:
+            if guards_hold(agg, v, assignment) != guards_hold(new, v, assignment):
+                return {"confirmed": True, "old": str(agg), "new": str(new), "aggregate_value": str(v), "assignment": {k: str(x) for k, x in assignment.items()}}
+    if new.right_guard is not None and new.left_guard is None:
+        return {"confirmed": True, "old": str(agg), "new": str(new), "why": "right guard without left guard"}
+    if new.function != agg.function or list(new.elements) != list(agg.elements):
+        return {"confirmed": True, "old": str(agg), "new": str(new), "why": "function/elements changed"}
+    return {"confirmed": False, "old": str(agg), "new": str(new)}
+
+
+# ---------------------------------------------------------------------------------------------
+# AggAnalytics (C12/C13)
+def _open_terms(guards):
+    out = set()
+    for g in guards:
+        if g is not None and g.term.ast_type != A.ASTType.SymbolicTerm:
+            out.add(str(g.term))
+    return sorted(out)
+
+
+@mirror("agg_analytics")
+def _agg_analytics(model, extra):
+    import itertools
+
+    from ngo.utils.ast import AggAnalytics
+
+    node = build(model["node"])
+    an = AggAnalytics(node)
+    for b in an.bounds:
+        if b.ast_type != A.ASTType.Guard:
+            return {"confirmed": True, "why": "bound is not a Guard", "node": str(node)}
+    names = sorted(set(_open_terms([node.left_guard, node.right_guard] + list(an.bounds))) | set(an.equal_variable_bound))
+    for vals in itertools.product(SAMPLE_SYMS, repeat=len(names)):
+        asg = dict(zip(names, vals))
+        for v in SAMPLE_SYMS:
+            orig = True
+            if node.left_guard is not None:
+                orig = orig and sym_cmp(A.ComparisonOperator(node.left_guard.comparison), term_value(node.left_guard.term, asg), v)
+            if node.right_guard is not None:
+                orig = orig and sym_cmp(A.ComparisonOperator(node.right_guard.comparison), v, term_value(node.right_guard.term, asg))
+            ana = all(sym_cmp(A.ComparisonOperator(b.comparison), v, term_value(b.term, asg)) for b in an.bounds) and all(asg[n] == v for n in an.equal_variable_bound)
+            if orig != ana:
+                return {
+                    "confirmed": True,
+                    "node": str(node),
+                    "bounds": [str(b.comparison) + " " + str(b.term) for b in an.bounds],
+                    "equal_variable_bound": an.equal_variable_bound,
+                    "aggregate_value": str(v),
+                    "assignment": {k: str(x) for k, x in asg.items()},
+                    "guards_hold": orig,
+                    "analysis_holds": ana,
+                }
+    return {"confirmed": False, "node": str(node)}
+
+
+@mirror("guaranteed")
+def _guaranteed(model, extra):
+    from ngo.utils.ast import AggAnalytics
+
+    bounds = build(model["bounds"])
+    number = model["number"]
+    an = AggAnalytics.__new__(AggAnalytics)
+    an.bounds = bounds
+    an.equal_variable_bound = []
+    fname = extra["fname"]
+    res = getattr(an, fname)(number)
+    if not res:
+        return {"confirmed": False, "result": res}
+    open_terms = _open_terms(bounds)
+    import itertools
+
+    cands = SAMPLE_SYMS + [clingo.Number(number + d) for d in (-2, -1, 0, 1, 2)]
+    for vals in itertools.product(SAMPLE_SYMS, repeat=len(open_terms)):
+        asg = dict(zip(open_terms, vals))
+        for v in cands:
+            if all(sym_cmp(A.ComparisonOperator(b.comparison), v, term_value(b.term, asg)) for b in bounds):
+                good = v <= clingo.Number(number) if fname == "guaranteed_leq" else v >= clingo.Number(number)
+                if not good:
+                    return {"confirmed": True, "call": f"{fname}({number})", "bounds": [str(b.comparison) + " " + str(b.term) for b in bounds], "aggregate_value": str(v), "result": res}
+    return {"confirmed": False, "result": res}
